@@ -207,5 +207,10 @@ Definition rename_classes (use_names : bool) (st : cstate) (g : list nat) : csta
       end
   end.
 
+(* should_use_names: unique plain names are required by the structure style, or all classes come
+   from ONE source location (they then share a module whatever their namespaces are) *)
+Definition should_use_names (style : str) (locations : list str) : bool :=
+  str_in style require_unique_names || Nat.eqb (List.length (dedup locations [])) 1.
+
 Definition rename_duplicate_classes (use_names : bool) (l : list cls) : list cls :=
   fst (fold_left (rename_classes use_names) (group_by (map (c_cmp use_names) l)) (l, None)).
